@@ -1,7 +1,7 @@
 (* C17 - the statements of Props/C17.v assembled from the invariants. *)
 From Coq Require Import ZArith List Bool Lia.
 From PTK Require Import Lib.Py Model.C03_Vt100Parser Model.C17_Typeahead
-  Proofs.C17_Core Proofs.C17_Conserve Proofs.C17_Accept.
+  Proofs.C17_Core Proofs.C17_Conserve Proofs.C17_Accept Proofs.C17_Silent.
 Import ListNotations.
 
 Section P.
@@ -11,54 +11,65 @@ Variable lookup_scan : E -> list kp -> option bid.
 Variable waits : E -> list kp -> bool.
 Variable eff : bid -> list kp -> E -> E * option res.
 Variable is_cprh : bid -> bool.
+Variable cpr_lookup : E -> option bid.
 Variable restart : E -> E.
 Variable pfeed : str -> PS -> PS * list kp.
 Variable pflush : PS -> PS * list kp.
 Variable res_eof : res.
 
 Notation sys := (sys E bid res PS).
-Notation run := (@run E bid res PS lookup lookup_scan waits eff is_cprh restart pfeed pflush res_eof).
+Notation run := (@run E bid res PS lookup lookup_scan waits eff is_cprh cpr_lookup restart pfeed pflush res_eof).
+Notation inv_run0 := (@inv_run E bid res PS lookup lookup_scan waits eff is_cprh cpr_lookup restart pfeed pflush res_eof).
 
 Lemma conservation ls e p r :
   let s := run ls (@init E bid res PS e p r) in
   nc (logged (co s)) ++ nc (kbuf (co s)) ++ nc (ikeys (store s)) ++ nc (ikeys (queue s)) = nc (decoded s).
 Proof.
-  intros s. destruct (@inv_run E bid res PS lookup lookup_scan waits eff is_cprh restart pfeed pflush res_eof ls
-                        (@init E bid res PS e p r) (inv_init E bid res PS e p r)) as (H & _).
-  fold s in H. unfold acc in H. rewrite nc_app, <- app_assoc in H. exact H.
-Qed.
-
-Lemma detached_queue_empty ls e p r :
-  let s := run ls (@init E bid res PS e p r) in at_ s = Detached -> queue s = [].
-Proof.
-  intros s. destruct (@inv_run E bid res PS lookup lookup_scan waits eff is_cprh restart pfeed pflush res_eof ls
-                        (@init E bid res PS e p r) (inv_init E bid res PS e p r)) as (_ & H & _). exact H.
+  intros s. destruct (inv_run0 ls (@init E bid res PS e p r) (inv_init E bid res PS e p r)) as (H & _ & _ & _ & P).
+  fold s in H, P. unfold acc in H. rewrite P, app_nil_r, nc_app, <- app_assoc in H. exact H.
 Qed.
 
 Lemma cpr_never_stored ls e p r :
   let s := run ls (@init E bid res PS e p r) in Forall (fun i => item_is_cpr i = false) (store s).
 Proof.
-  intros s. destruct (@inv_run E bid res PS lookup lookup_scan waits eff is_cprh restart pfeed pflush res_eof ls
-                        (@init E bid res PS e p r) (inv_init E bid res PS e p r)) as (_ & _ & _ & H). exact H.
+  intros s. destruct (inv_run0 ls (@init E bid res PS e p r) (inv_init E bid res PS e p r)) as (_ & _ & _ & H & _). exact H.
 Qed.
 
 Lemma fuel_suffices ls e p r : oof (co (run ls (@init E bid res PS e p r))) = false.
 Proof.
-  rewrite (@run_oof E bid res PS lookup lookup_scan waits eff is_cprh restart pfeed pflush res_eof). reflexivity.
+  rewrite (@run_oof E bid res PS lookup lookup_scan waits eff is_cprh cpr_lookup restart pfeed pflush res_eof). reflexivity.
 Qed.
 
 Lemma nothing_after_accept :
-  exit_clean lookup lookup_scan waits eff is_cprh -> cpr_fires lookup waits eff ->
+  cpr_silent eff cpr_lookup ->
   forall ls e p r, ~ In LClose ls ->
   let s := run ls (@init E bid res PS e p r) in
   Forall ok_ev (rlog (co s)) /\ cph (co s) <> CBroken res /\
   (late (co s) = true -> kbuf (co s) = []) /\
   Forall nf (store s) /\ Forall nf (queue s).
 Proof.
-  intros HX HC ls e p r NI s.
-  destruct (@Js_run E bid res PS lookup lookup_scan waits eff is_cprh restart pfeed pflush res_eof HX HC ls
-              (@init E bid res PS e p r) NI (Js_init E bid res PS waits e p r)) as ((NB & LK & _ & OK) & _ & _ & F & G & _).
+  intros HS ls e p r NI s.
+  destruct (@Js_run E bid res PS lookup lookup_scan waits eff is_cprh cpr_lookup restart pfeed pflush res_eof HS ls
+              (@init E bid res PS e p r) NI (Js_init E bid res PS e p r)) as (((NB & LK & OK) & _) & _ & _ & F & G & _).
   auto.
+Qed.
+
+(* delivering a report changes nothing the dispatch or the handlers look at *)
+Lemma cpr_transparent :
+  cpr_silent eff cpr_lookup ->
+  forall (c : core E bid res) k, is_cpr k = true ->
+  let c' := deliver lookup lookup_scan waits eff is_cprh cpr_lookup (IKey k) c in
+  est c' = est c /\ kbuf c' = kbuf c /\ cph c' = cph c /\ pb c' = pb c.
+Proof.
+  intros HS c k CK. cbn [deliver]. rewrite CK.
+  destruct (@handle_cpr_eq E bid res eff is_cprh cpr_lookup HS k c) as (A & B & C & D & _). auto.
+Qed.
+
+Lemma cpr_silent_log ls e p r :
+  let s := run ls (@init E bid res PS e p r) in
+  Forall (sil_ev cpr_lookup) (rlog (co s)) /\ noc (kbuf (co s)).
+Proof.
+  exact (@C17_Silent.cpr_silent_log E bid res PS lookup lookup_scan waits eff is_cprh cpr_lookup restart pfeed pflush res_eof ls e p r).
 Qed.
 
 End P.
